@@ -60,6 +60,16 @@ func c18Alphabet(nAlerts int) []c18Ev {
 	return evs
 }
 
+// c18NoName: the alerts of the run carry no alertname label at all (they all share the name ""): still one name.
+var c18NoName bool
+
+func c18Labels(i string) model.LabelSet {
+	if c18NoName {
+		return model.LabelSet{"job": "batch", "i": model.LabelValue(i)}
+	}
+	return model.LabelSet{"alertname": "N", "i": model.LabelValue(i)}
+}
+
 func c18Run(t *testing.T, limit int, evs []c18Ev, h []int) (res seqx.Result) {
 	synctest.Test(t, func(t *testing.T) {
 		defer func() {
@@ -84,7 +94,7 @@ func c18Run(t *testing.T, limit int, evs []c18Ev, h []int) (res seqx.Result) {
 			case ev.alert >= 0:
 				al := &types.Alert{
 					Alert: model.Alert{
-						Labels:   model.LabelSet{"alertname": "N", "i": model.LabelValue(fmt.Sprint(ev.alert))},
+						Labels:   c18Labels(fmt.Sprint(ev.alert)),
 						StartsAt: now,
 						EndsAt:   now.Add(ev.end),
 					},
@@ -160,7 +170,7 @@ func c18Run(t *testing.T, limit int, evs []c18Ev, h []int) (res seqx.Result) {
 			now := time.Now()
 			for i := 0; i < limit; i++ {
 				a.Put(context.Background(), &types.Alert{
-					Alert:     model.Alert{Labels: model.LabelSet{"alertname": "N", "i": model.LabelValue(fmt.Sprintf("p%d", i))}, StartsAt: now, EndsAt: now.Add(300 * time.Second)},
+					Alert:     model.Alert{Labels: c18Labels(fmt.Sprintf("p%d", i)), StartsAt: now, EndsAt: now.Add(300 * time.Second)},
 					UpdatedAt: now,
 				})
 			}
@@ -200,12 +210,19 @@ func c18Run(t *testing.T, limit int, evs []c18Ev, h []int) (res seqx.Result) {
 }
 
 func TestVerifC18Alerts(t *testing.T) {
-	type cfg struct{ limit, nAlerts, depthQ, depthT int }
-	cfgs := []cfg{{3, 4, 5, 6}, {2, 3, 5, 7}, {1, 2, 5, 8}}
+	type cfg struct {
+		limit, nAlerts, depthQ, depthT int
+		noName                         bool
+	}
+	cfgs := []cfg{{3, 4, 5, 6, false}, {2, 3, 5, 7, false}, {1, 2, 5, 8, false}, {2, 3, 4, 6, true}}
 	deadline := rep.Deadline(10 * time.Minute)
 	for _, c := range cfgs {
 		evs := c18Alphabet(c.nAlerts)
 		part := fmt.Sprintf("alerts-limit%d", c.limit)
+		c18NoName = c.noName
+		if c.noName {
+			part += "-without-alertname"
+		}
 		if rp := rep.ReplaySpec(); rp != nil {
 			if rp["part"] != part {
 				continue
